@@ -55,6 +55,10 @@ MCSpec == MCInit /\ [][MCNext]_mcvars
 MCSpecFair == MCSpec /\ WF_mcvars(MCNext)
 
 (* script-level stop contract *)
+(* Cross implements its size abstraction CrossCounts (refinement mapping: index sets -> their sizes) *)
+Abs == INSTANCE CrossCounts WITH rl <- [kk \in 0..D |-> Card(Ir[kk])], rc <- [kk \in 0..D |-> Card(Ic[kk])], bsz <- Len(req)
+Refines == Abs!ASpec
+
 ScriptInv == pc = "done" =>
    /\ (stop = "cb" => cbAt = nsw)
    /\ (stop = "func" => noneAt = ncall)
